@@ -226,6 +226,8 @@ func Main(t *testing.T, worlds map[string]World) {
 		replay(t, w, prop, tier, out)
 	case "minimise":
 		minimise(t, w, prop, tier, out)
+	case "hashes":
+		hashes(t, w, prop, tier, out)
 	default:
 		explore(t, w, prop, tier, out)
 	}
@@ -439,4 +441,24 @@ func minimise(t *testing.T, w World, prop, tier, out string) {
 	}
 	rf.Minimised = true
 	writeJSON(out, rf)
+}
+
+// hashes runs a fixed set of seeds and writes one line per run with the
+// decision-trace hash; used by the determinism self-test.
+func hashes(t *testing.T, w World, prop, tier, out string) {
+	base := int64(envInt("VERIF_SEED", 1))
+	n := envInt("VERIF_MAX_RUNS", 100)
+	var sb strings.Builder
+	for i := 0; i < n; i++ {
+		seed := seedFor(base, prop, i)
+		res, _, _ := Exec(t, w, prop, tier, simsync.NewTape(seed), false, map[string]int{}, map[string]struct{}{})
+		rule := ""
+		if len(res.Violations) > 0 {
+			rule = res.Violations[0].Rule
+		}
+		fmt.Fprintf(&sb, "%d %d %x %d %d %s %s\n", i, seed, res.Hash, res.Steps, len(res.Tape), rule, res.Harness)
+	}
+	if err := os.WriteFile(out, []byte(sb.String()), 0o644); err != nil {
+		t.Fatal(err)
+	}
 }
